@@ -221,6 +221,17 @@ def nan_buffers(P, R, rule, modules, floor=1):
                 n += 1
                 dt = next((k.value for k in c.keywords if k.arg == 'dtype'), c.args[2] if len(c.args) > 2 else None)
                 dte = astq.expand(f, dt) if dt is not None else None
+                if isinstance(dt, ast.Name) and isinstance(dte, ast.Name):
+                    # a dtype chosen on several paths: every choice must be float64
+                    alts = [d_[1] for d_ in astq.assignments(f, dt.id) if d_[0] == 'expr' and isinstance(d_[1], ast.AST)]
+                    narrow = [a_ for a_ in alts if norm(a_) not in FLOAT64_DTYPES]
+                    if alts and narrow:
+                        R.bad(rule, f, c, f'NaN-initialised result buffer has dtype `{dt.id}`, which is `{norm(narrow[0])}` on one path: narrower than float64 (float32 coordinates are then compared, '
+                              'summed or stored in single precision) or not floating at all', construct=norm(c))
+                        continue
+                    if alts and not narrow:
+                        R.ok(rule, f, c, 'NaN-initialised result buffer is float64 on every path', construct=norm(c))
+                        continue
                 if dt is None or norm(dt) in FLOAT64_DTYPES:
                     R.ok(rule, f, c, 'NaN-initialised result buffer is float64', construct=norm(c))
                 elif norm(dt) in FLOAT_DTYPES or any(isinstance(x, ast.Call) and norm(x.func).split('.')[-1] in ('result_type', 'promote_types', 'find_common_type') for x in ast.walk(dte)) \
@@ -472,6 +483,7 @@ def array_token(P, R, rule):
         exp = [astq.expand(g_, s_.value) for s_ in rets]
         attrs = set()
         whole = False
+        raw_arrow = False
         for e_ in exp:
             for x in ast.walk(e_):
                 if isinstance(x, ast.Attribute) and isinstance(x.value, ast.Name) and x.value.id == a:
@@ -481,7 +493,10 @@ def array_token(P, R, rule):
                         if isinstance(arg, ast.Name) and arg.id == a and norm(x.func) not in ('type', 'len', 'isinstance', 'id', 'getattr', 'hasattr', 'str', 'repr'):
                             whole = True          # the array itself goes into the token (generic normaliser, np.asarray, list, pickle ...)
                         if isinstance(arg, ast.Attribute) and isinstance(arg.value, ast.Name) and arg.value.id == a and arg.attr in ('data', '_data'):
-                            whole = True          # the arrow array as a whole
+                            if norm(x.func).split('.')[-1] in ('normalize_token', 'tokenize'):
+                                raw_arrow = True      # (S14) dask tokenises a pyarrow array by its BUFFERS: the slice offset and length are not part of the token
+                            else:
+                                whole = True          # the arrow array as a whole (to_pylist, pickle, ...)
                     if isinstance(x.func, ast.Attribute) and isinstance(x.func.value, ast.Attribute) and isinstance(x.func.value.value, ast.Name) and x.func.value.value.id == a \
                             and x.func.value.attr in ('data', '_data') and x.func.attr in ('to_pylist', 'to_pandas', 'to_numpy', 'to_string', 'equals', '__reduce__'):
                         whole = True
@@ -491,7 +506,11 @@ def array_token(P, R, rule):
         R.check(bool(rets) and has_dtype, rule, g_, rets[0] if rets else None, f'the token of a {ci.name} includes its dtype (coordinate subtype)',
                 f'the token {g_.name} computes for a {ci.name} does not include the dtype: arrays with equal numbers and different coordinate subtypes get one token',
                 construct=f'{g_.name}: token includes the dtype')
-        complete = whole or bool(attrs & {'isna', 'isnull', '_isna'})
+        if raw_arrow and not whole:
+            R.assume('S14: dask tokenises a pyarrow Array by its buffers; offset and length of a slice are not part of that token')
+            R.bad(rule, g_, rets[0] if rets else None, f'the token {g_.name} computes for a {ci.name} hands the arrow array to dask\'s tokeniser, which hashes the BUFFERS only: equally long slices of one parent '
+                  'array (iloc windows) share all buffers and get one token, so dask serves the first window for all of them', construct=f'{g_.name}: token of the raw arrow array')
+        complete = whole or raw_arrow or bool(attrs & {'isna', 'isnull', '_isna'})
         R.check(bool(rets) and complete, rule, g_, rets[0] if rets else None, f'the token of a {ci.name} covers its elements completely (whole array, or buffers together with the validity of the elements)',
                 f'the token {g_.name} computes for a {ci.name} is built from {sorted(attrs)} only: a missing element and an empty one have the same offsets and coordinates, so arrays that differ only in '
                 'missing vs empty elements get one token and dask serves the first frame for both', construct=f'{g_.name}: token covers validity')
@@ -574,3 +593,119 @@ def evaluated_once(P, R, rule, why):
         R.ok(rule, ('spatialpandas', 'defaults'), None, 'no parameter default or module-level constant holds a value that must be fresh per call (uuid, time, random, temp name); no mutable default is filled in place',
              construct='values evaluated once')
     return n
+
+
+def coordinate_buffers_row_major(P, R, rule):
+    """The fixed-width arrays store interleaved coordinates (x0 y0 x1 y1 ...): a numpy array handed to the constructor reaches arrow serialised in ROW-MAJOR order
+    (`array.tobytes()`, `np.ascontiguousarray`), whatever its memory layout.  Wrapping the array's memory as it is stores a Fortran-ordered (n, 2) array -
+    `np.array([xs, ys]).T`, `df[['x', 'y']].to_numpy()` - as all xs followed by all ys."""
+    n = 0
+    for m in P.mods.values():
+        if not m.name.startswith('spatialpandas.geometry.base'):
+            continue
+        for f in m.funcs.values():
+            if isinstance(f.node, ast.Lambda):
+                continue
+            for c in astq.own_calls(f):
+                if norm(c.func) not in ('pa.py_buffer', 'pyarrow.py_buffer', 'pa.foreign_buffer') or not c.args:
+                    continue
+                e = astq.expand(f, c.args[0])
+                # bytes that already are arrow / python bytes (as_py(), buffers of an existing arrow array) carry no numpy layout
+                if any(isinstance(x, ast.Call) and isinstance(x.func, ast.Attribute) and x.func.attr in ('as_py', 'to_pybytes', 'buffers') for x in ast.walk(e)):
+                    continue
+                n += 1
+                ok = False
+                if isinstance(e, ast.Call) and isinstance(e.func, ast.Attribute) and e.func.attr == 'tobytes':
+                    order = next((k.value for k in e.keywords if k.arg == 'order'), e.args[0] if e.args else None)
+                    ok = order is None or astq.const_str(order) == 'C'
+                elif isinstance(e, ast.Call) and norm(e.func) in ('np.ascontiguousarray', 'numpy.ascontiguousarray'):
+                    ok = True
+                elif isinstance(e, ast.Call) and isinstance(e.func, ast.Attribute) and e.func.attr in ('ravel', 'flatten') and not any(astq.const_str(a) in ('F', 'A', 'K') for a in list(e.args) + [k.value for k in e.keywords]):
+                    ok = True
+                elif isinstance(e, (ast.Constant, ast.JoinedStr)) or (isinstance(e, ast.Call) and norm(e.func) in ('bytes', 'bytearray')):
+                    ok = True
+                R.check(ok, rule, f, c, 'coordinates reach arrow serialised in row-major order',
+                        f'`{norm(c)[:80]}` wraps `{norm(e)[:60]}` in the memory order it happens to have: a Fortran-ordered (n, 2) array is stored as all x values followed by all y values, '
+                        'so every point of the array is made of the wrong pair of numbers', construct=f'{f.qualname}: {norm(c)[:50]}')
+    R.floor(rule, 'numpy-to-arrow coordinate buffers', n, 3)
+    return n
+
+
+LOSSY_CALLS = ('rsplit', 'split', 'basename', 'stem', 'name', 'partition', 'rpartition', 'splitext', 'len')
+
+
+def task_names(P, R, rule, funcs, why):
+    """A `dask_key_name=` given to a delayed call names the task; dask runs ONE task per name in a graph.  Every argument that changes what the task returns
+    must be part of the name, and as a whole: a name made of the file's base name (`part.0.parquet`) is shared by the parts of every dataset."""
+    n = 0
+    for g_ in funcs:
+        for c_ in astq.own_calls(g_):
+            kn = astq.arg_of(c_, kw='dask_key_name')
+            if kn is None:
+                continue
+            n += 1
+            e_ = astq.expand(g_, kn)
+            named = astq.sources(g_, kn) | {x.id for x in ast.walk(e_) if isinstance(x, ast.Name)}
+            others = set()
+            for a_ in list(c_.args) + [k_.value for k_ in c_.keywords if k_.arg not in ('dask_key_name', 'filesystem', 'pure', 'name')]:
+                others |= {n_ for n_ in astq.names_in(a_)}
+            missing = sorted(n_ for n_ in others if n_ not in named and n_ not in ('filesystem', 'np', 'pd'))
+            R.check(not missing, rule, g_, c_, 'the task name covers every argument of the task',
+                    f'`dask_key_name={norm(kn)}` does not depend on {missing}: two reads that differ only in {missing} get identically named tasks, dask runs one of them for both: {why}',
+                    construct='task name covers the task arguments')
+            # whole, not a part of it
+            for x in ast.walk(e_):
+                for ch in ast.iter_child_nodes(x):
+                    ch._tn_parent = x
+            partial = []
+            for x in ast.walk(e_):
+                if isinstance(x, ast.Name) and x.id in others:
+                    q, lossy = x, None
+                    while getattr(q, '_tn_parent', None) is not None:
+                        par = q._tn_parent
+                        if isinstance(par, ast.Subscript) and par.value is q:
+                            lossy = norm(par)
+                        if isinstance(par, ast.Call) and ((isinstance(par.func, ast.Attribute) and par.func.attr in LOSSY_CALLS and (par.func.value is q or q in par.args))
+                                                          or norm(par.func).split('.')[-1] in LOSSY_CALLS):
+                            lossy = norm(par)
+                        q = par
+                    if lossy:
+                        partial.append((x.id, lossy))
+            whole = {x.id for x in ast.walk(e_) if isinstance(x, ast.Name) and x.id in others} - {p_[0] for p_ in partial}
+            bad = [p_ for p_ in partial if p_[0] not in whole]
+            R.check(not bad, rule, g_, c_, 'the task name contains its arguments as a whole',
+                    f'`dask_key_name={norm(kn)[:80]}` contains only a part of `{bad[0][0] if bad else ""}` (`{bad[0][1][:50] if bad else ""}`): different arguments with the same part - the equally named part files of '
+                    f'two datasets - get one task name, and dask runs one task for both: {why}', construct='task name contains whole arguments')
+    return n
+
+
+def read_path_not_memoised(P, R, rule):
+    # ---------------------------------------------------------------- C12.h nothing on the read path is memoised
+    # read_parquet_dask must report what the dataset holds *now*: a function that reads through the filesystem and is
+    # memoised by its arguments (functools cache decorators, or a module-level dict consulted before reading) returns
+    # the previous dataset's metadata after an overwrite -- no writer-side invalidation can cover other processes.
+    def reads_storage(c, g):
+        if astq.fs_call(c, {'open', 'cat', 'cat_file', 'read_bytes', 'get', 'expand_path', 'ls', 'listdir', 'glob', 'find', 'walk', 'exists', 'isdir', 'isfile', 'info'}):
+            return True          # listings and existence checks go stale just like contents
+        r_ = P.resolve_call(g, c)
+        return bool(r_ and r_[0] == 'ext' and r_[1].split('.')[-1] in ('read_metadata', 'read_table', 'ParquetDataset', 'read_schema', 'ParquetFile'))
+    nread = 0
+    for m in P.mods.values():
+        globals_mut = {t.id for a in m.tree.body if isinstance(a, ast.Assign) and isinstance(a.value, (ast.Dict, ast.Call))
+                       and (isinstance(a.value, ast.Dict) or norm(a.value.func) in ('dict', 'OrderedDict', 'WeakValueDictionary', 'weakref.WeakValueDictionary'))
+                       for t in a.targets if isinstance(t, ast.Name)}
+        for g in m.funcs.values():
+            if isinstance(g.node, ast.Lambda) or not astq.performs(P, g, reads_storage, depth=3):
+                continue
+            nread += 1
+            memo = [d for d in g.tags.get('ext', []) if 'cache' in d.split('.')[-1].lower() or d.split('.')[-1] in ('memoize', 'memoized')]
+            R.check(not memo, rule, g, None, 'a function that reads the dataset from storage is not memoised',
+                    f'`{g.name}` reads from storage but is memoised by {memo}: after the dataset is rewritten the reader reports the previous metadata/bounds',
+                    construct=f'memoised storage read {g.name}')
+            hits = [n for n in walk_own(g.node) if isinstance(n, ast.Return) and n.value is not None
+                    and any(isinstance(x, ast.Subscript) and isinstance(x.value, ast.Name) and x.value.id in globals_mut and x.value.id not in g.params
+                            or (isinstance(x, ast.Call) and isinstance(x.func, ast.Attribute) and x.func.attr == 'get' and isinstance(x.func.value, ast.Name) and x.func.value.id in globals_mut)
+                            for x in ast.walk(n.value))]
+            R.check(not hits, rule, g, hits[0] if hits else None, 'a function that reads the dataset from storage does not answer from a module-level table',
+                    f'`{g.name}` answers from a module-level table instead of storage: stale after the dataset is rewritten', construct=f'table-cached storage read {g.name}')
+    R.floor(rule, 'functions that read dataset files', nread, 3)
